@@ -1,9 +1,10 @@
 """C01 (partial): encoding never silently drops or substitutes a symbol (R-MISS); the serialised
-model/table and stream framing of each codec is parsed back with the same widths and order (R-PAIR)."""
+model/table and stream framing of each codec is parsed back with the same widths and order (R-PAIR); the dictionary
+coders extend a match only from compared bytes (R-MATCHVERIFY)."""
 from vlib import fixtures
 import re
 
-from rules import miss, pair, sibling
+from rules import miss, pair, sibling, matchverify, order
 from vlib.mir import Fn
 from vlib.run import Broken
 
@@ -19,10 +20,16 @@ PAIRS = [
 
 def run(ctx):
     fx = ctx.facts("default")
-    fixtures.run(ctx, ['miss', 'pair', 'fallback'])
+    fixtures.run(ctx, ['miss', 'pair', 'fallback', 'matchverify', 'shared'])
     # encoder and decoder choose the single-stream fallback by the same test
     sibling.run(ctx, fx, ['src/entropy/rans.rs', 'src/entropy/fse.rs', 'src/entropy/huffman.rs'])
     ctx.floor('R-SIBLING.fallback.pairs', 2)
+    # LZ-style dictionary coders: a match is extended only from bytes that were compared (hash candidates are verified)
+    matchverify.run(ctx, fx, ['src/entropy/dictionary.rs'])
+    ctx.floor('R-MATCHVERIFY.loops', 3)
+    # parallel block encoders gather their blocks in input order
+    order.shared_accumulator(ctx, fx, [f for f in fx.files() if f.startswith('src/entropy/')])
+    ctx.floor('R-SEQ.shared.parallel_fns', 1)
     miss.run(ctx, fx, FILES, LOOKUPS, only=lambda f: not re.search(r'estimate|::tests::', f))
     ctx.floor("R-MISS.lookups", 12)
     ev = 0
